@@ -17,7 +17,7 @@ LEVEL_TEXT = ("Held on every arc subset of this run (k = 1..5, 6 in the thorough
               "only vertex-induced graphs) and on every sampled illegal matrix. Sampled, with a floor on graphs having a vertex of "
               "out-degree strictly between 0 and 4.")
 LEVEL_NOTE = "Trusts the plain-loop reconstructions in this module and numpy array_equal."
-PLAN = {"quick": dict(shards=16, budget=100), "thorough": dict(shards=32, budget=300)}
+PLAN = {"quick": dict(shards=16, budget=100), "thorough": dict(shards=16, budget=300)}
 RULE = ("Random arc subsets (independent arcs, density 0, 0.1..0.9, 1) of the order-k de Bruijn graph: latter map == {v: live "
         "successors} for exactly the vertices with arcs; latter_map_to_accessor and adjacency_matrix_to_accessor invert the "
         "conversions; the matrix has a 1 exactly at the arcs; obtain_vertices == rows with arcs; obtain_leaf_vertices(v, d) for "
